@@ -14,7 +14,7 @@ EXHAUSTIVE = {"quick": "26 rankings x 108 variants x 5 namings; all 66430 string
               "thorough": "150 rankings (4 elements) x variants; all 597871 strings of length <= 6 (+ 7 sampled); "
                           "18275 datasets as files"}
 ASSUMPTIONS = ["equality of datasets read back is decided by TLC on the projected rankings (bag equality), not by the "
-               "library's __eq__", "each parser call runs under a 2 s watchdog (a hang is a failure mode)",
+               "library's __eq__", "each parser call runs under a 20 s watchdog (a hang is a failure mode)",
                "the scanner is transcribed in spec/TextScan.tla; its prediction of which strings are accepted is compared "
                "with the library as drift only"]
 _impl = {}
